@@ -422,7 +422,8 @@ func cmdCheck(args []string) {
 			"violations":  violations,
 			"assumptions": assumptions,
 			"coverage": map[string]interface{}{
-				"obligations":              len(all),
+				"obligations":              len(all) - len(knownMatched),
+				"obligations_including_known_findings": len(all),
 				"discharged":               discharged,
 				"checker_cmd":              "/verif/check " + *prop + " --tier " + *tier,
 				"trusted_base":             append([]string{"z3 5.1.0 (z3-new), z3 4.8.12, cvc5 1.0.3", "golang.org/x/tools v0.29.0 go/ssa naive form", "govc VC generator (/verif/govc)"}, ext...),
